@@ -1102,6 +1102,11 @@ def rand_c15(seed, tier, cases=None):
                         b=dict(src="feed", feed=dict(pkind=pk, shape=shape, len=3000, salt=2, mtu=1200)), wellformed_b=True, **{"class": kind + "_huge_abandoned_unit"}))
     # the bytes retained from an abandoned unit end just below a power of two (2^20 .. 2^26: 16 .. 1024 fragments of 65533 bytes
     # delivered, the small last one lost) and the next frame opens with a 65533-byte start fragment
+    # ... and just below every whole number of MiB up to 64 (a reassembly bound is most likely a round number)
+    for k in range(1, 65):
+        m = (k << 20) // 65533
+        out.append(dict(fam="C15", kind="h264", a=dict(src="feed", feed=dict(pkind="h264", shape="h264_slice", len=m * 65533 + 101, salt=1, mtu=65535)), mask=-1, garbage=[], after=[],
+                        b=dict(src="feed", feed=dict(pkind="h264", shape="h264_slice", len=70000, salt=2, mtu=65535)), wellformed_b=True, **{"class": "h264_retained_just_below_k_MiB"}))
     for n in ((20, 22, 24) if tier == "quick" else (20, 21, 22, 23, 24, 25, 26)):
         out.append(dict(fam="C15", kind="h264", a=dict(src="feed", feed=dict(pkind="h264", shape="h264_slice", len=(1 << (n - 16)) * 65533 + 101, salt=1, mtu=65535)), mask=-1, garbage=[], after=[],
                         b=dict(src="feed", feed=dict(pkind="h264", shape="h264_slice", len=70000, salt=2, mtu=65535)), wellformed_b=True, **{"class": "h264_retained_just_below_2_%d" % n}))
